@@ -1942,6 +1942,15 @@ TARGETS2 = {
         ("varintDimension.c", "varintDimensionPairEntrySetBit", "dimEntrySetBit"),
         ("varintDimension.c", "varintDimensionPairEntryToggleBit", "dimEntryToggleBit"),
     ],
+    "CPFOR": [
+        ("import", "CTagged", TAGGED_IMPORTS),
+        ("import", "CTaggedAdd", "varintTagged.c:varintTaggedGet64:taggedGet64"),
+        ("import", "CExternal", "varintExternal.c:varintExternalLoadFromEncodingLittleEndian_:extLoadLE,"
+                                "varintExternal.c:varintExternalGet:extGet"),
+        ("varintPFOR.c", "varintPFORCalculateMarker", "pforMarker"),
+        ("varintPFOR.c", "varintPFORSize", "pforSize"),
+        ("varintPFOR.c", "varintPFORGetAt", "pforGetAt"),
+    ],
     "CGroup": [
         ("import", "CSizes", "varintGroup.c:varintGroupWidthDecode_:groupWidthDecode:legacy,"
                              "varintGroup.c:varintGroupWidthEncode_:groupWidthEncode:legacy,"
